@@ -307,6 +307,14 @@ func (kr *KeyRegistry) LatestDataKey() (*pb.DataKey, error) {
 		// nil is for no encryption.
 		return nil, nil
 	}
+	if kr.opt.ReadOnly {
+		// A read-only registry has no file to persist a new data key to, and nothing new gets
+		// encrypted in read-only mode. Hand out the newest key we have (nil if there is none),
+		// even if it is due for rotation.
+		kr.RLock()
+		defer kr.RUnlock()
+		return kr.dataKeys[kr.nextKeyID], nil
+	}
 	// validKey return datakey if the last generated key duration less than
 	// rotation duration.
 	validKey := func() (*pb.DataKey, bool) {
